@@ -1389,7 +1389,9 @@ static void _focus_gained(TickitWindow *win, TickitWindow *child)
     run_events(win, TICKIT_WINDOW_ON_FOCUS, &info);
   }
 
-  win->focused_child = child;
+  /* A focus handler may have closed the child meanwhile; it then holds nothing
+   * below this window, and may not outlive the call */
+  win->focused_child = (child && child->parent != win) ? NULL : child;
 
   tickit_window_unref(win);
 }
